@@ -1,6 +1,7 @@
 package an
 
 import (
+	"regexp"
 	"fmt"
 	"go/constant"
 	"go/token"
@@ -94,6 +95,20 @@ func descN(v ssa.Value, depth int) string {
 	case *ssa.Call:
 		return callDesc(&x.Call, d)
 	case *ssa.Extract:
+		if sel, ok := x.Tuple.(*ssa.Select); ok && x.Index >= 2 {
+			// the value received by an arm of a select is named by the arm's channel, not
+			// by the arm's position among the cases (which has no meaning)
+			k := 2
+			for _, st := range sel.States {
+				if st.Dir != types.RecvOnly {
+					continue
+				}
+				if k == x.Index {
+					return "select(<-" + descN(st.Chan, d) + ")"
+				}
+				k++
+			}
+		}
 		return fmt.Sprintf("%s#%d", descN(x.Tuple, d), x.Index)
 	case *ssa.MakeInterface:
 		return descN(x.X, d)
@@ -850,15 +865,8 @@ func NormAtom(c ssa.Value, pol bool) string {
 			if !pol {
 				op = negOp[op]
 			}
-			l, r := Desc(x.X), Desc(x.Y)
-			// constants to the right
-			if _, lc := x.X.(*ssa.Const); lc {
-				if _, rc := x.Y.(*ssa.Const); !rc {
-					l, r = r, l
-					op = swapOp[op]
-				}
-			}
-			return l + " " + op.String() + " " + r
+			// (the operand order is canonical already: Prog.canonComparisons)
+			return Desc(x.X) + " " + op.String() + " " + Desc(x.Y)
 		}
 	case *ssa.UnOp:
 		if x.Op == token.NOT {
@@ -874,11 +882,201 @@ func NormAtom(c ssa.Value, pol bool) string {
 
 func hasAtom(atoms []string, want string) bool {
 	for _, a := range atoms {
-		if a == want {
+		if litEq(a, want) {
 			return true
 		}
 	}
 	return false
+}
+
+// Source-level names of local variables are not part of any rule: a token "$name" or
+// "φname" in a rule's literal is a METAVARIABLE that stands for some local variable (resp.
+// some merge of values) of the function, not for the variable that happens to be called
+// `name` today.  litEq compares a description with such a literal: the text outside the
+// local-variable tokens must be identical, and the tokens must correspond one to one (the
+// same metavariable always the same local, different metavariables different locals) within
+// the literal.  The names the SSA builder gives to its own temporaries ($complit, $makeslice,
+// …) are not source names and are compared literally.
+var localTok = regexp.MustCompile(`[φ$][A-Za-z_][A-Za-z0-9_]*`)
+
+var builderNames = map[string]bool{"$complit": true, "$makeslice": true, "$slicelit": true, "$varargs": true, "$new": true, "$rangeindex": true}
+
+func litEq(actual, pattern string) bool {
+	if actual == pattern {
+		return true
+	}
+	return litUnify(actual, pattern, map[string]string{})
+}
+
+var constText = regexp.MustCompile(`^(-?[0-9][0-9a-fx_.e+-]*|nil|true|false|".*"|'.*'|Err[A-Z][A-Za-z]*)(:[A-Za-z0-9_.]+)?$`)
+
+// canonLit puts a literal comparison atom `l op r` into the operand order of
+// Prog.canonComparisons; the second result is the mirrored form when the order of the two
+// operands is not determined (two local variables in otherwise identical positions).
+func canonLit(pat string) (string, string) {
+	l, op, r := splitAtom(pat)
+	if op == "" {
+		return pat, ""
+	}
+	mirrored := r + " " + mirrorOp[op] + " " + l
+	cl, cr := constText.MatchString(l), constText.MatchString(r)
+	switch {
+	case cl && !cr:
+		return mirrored, ""
+	case !cl && cr:
+		return pat, ""
+	}
+	ml, mr := maskLocals(l), maskLocals(r)
+	switch {
+	case ml > mr:
+		return mirrored, ""
+	case ml == mr:
+		return pat, mirrored
+	}
+	return pat, ""
+}
+
+var mirrorOp = map[string]string{"==": "==", "!=": "!=", "<=": ">=", ">=": "<=", "<": ">", ">": "<"}
+
+// splitAtom splits a comparison atom `l op r` at its top-level operator ("" when the atom is
+// not a comparison).
+func splitAtom(pat string) (string, string, string) {
+	depth, inStr := 0, false
+	for i := 0; i < len(pat); i++ {
+		ch := pat[i]
+		if inStr {
+			if ch == '\\' {
+				i++
+			} else if ch == '"' {
+				inStr = false
+			}
+			continue
+		}
+		switch ch {
+		case '"':
+			inStr = true
+		case '(', '[', '{':
+			depth++
+		case ')', ']', '}':
+			depth--
+		case ' ':
+			if depth != 0 {
+				continue
+			}
+			for _, op := range []string{" == ", " != ", " <= ", " >= ", " < ", " > "} {
+				if strings.HasPrefix(pat[i:], op) {
+					return pat[:i], strings.TrimSpace(op), pat[i+len(op):]
+				}
+			}
+		}
+	}
+	return pat, "", ""
+}
+
+// atomSides: the two operands of a comparison atom with operator op, in either order:
+// calls f(x, y) for (l, r) and, with the operator mirrored, for (r, l).
+func atomSides(a, op string, f func(x, y string) bool) bool {
+	l, o, r := splitAtom(a)
+	if o == "" {
+		return false
+	}
+	if o == op && f(l, r) {
+		return true
+	}
+	return mirrorOp[o] == op && f(r, l)
+}
+
+func maskLocals(s string) string {
+	return localTok.ReplaceAllStringFunc(s, func(t string) string {
+		if builderNames[t] {
+			return t
+		}
+		return "\uffff"
+	})
+}
+
+// hasAtomB: hasAtom under a rule-wide binding of the metavariables.
+func hasAtomB(atoms []string, want string, bind map[string]string) bool {
+	for _, a := range atoms {
+		if litUnify(a, want, bind) {
+			return true
+		}
+	}
+	return false
+}
+
+// litSubst replaces the bound metavariables of a literal by the locals they stand for.
+func litSubst(pattern string, bind map[string]string) string {
+	return localTok.ReplaceAllStringFunc(pattern, func(t string) string {
+		if v, ok := bind[t]; ok {
+			return v
+		}
+		return t
+	})
+}
+
+// litUnify is litEq with a caller-supplied binding (pattern variable -> local), so that one
+// rule can demand the same local in several literals.
+func litUnify(actual, pattern string, bind map[string]string) bool {
+	c1, c2 := canonLit(pattern)
+	if c1 == actual || litUnify1(actual, c1, bind) {
+		return true
+	}
+	return c2 != "" && (c2 == actual || litUnify1(actual, c2, bind))
+}
+
+func litUnify1(actual, pattern string, bind map[string]string) bool {
+	if !strings.ContainsAny(pattern, "φ$") {
+		return false
+	}
+	pi := localTok.FindAllStringIndex(pattern, -1)
+	ai := localTok.FindAllStringIndex(actual, -1)
+	if len(pi) != len(ai) {
+		return false
+	}
+	pp, ap := 0, 0
+	nb := map[string]string{}
+	for k := range pi {
+		if pattern[pp:pi[k][0]] != actual[ap:ai[k][0]] {
+			return false
+		}
+		pv, av := pattern[pi[k][0]:pi[k][1]], actual[ai[k][0]:ai[k][1]]
+		pp, ap = pi[k][1], ai[k][1]
+		if builderNames[pv] || builderNames[av] {
+			if pv != av {
+				return false
+			}
+			continue
+		}
+		if strings.HasPrefix(pv, "$") != strings.HasPrefix(av, "$") {
+			return false // a merge is not a variable
+		}
+		got, has := bind[pv]
+		if !has {
+			got, has = nb[pv]
+		}
+		if has {
+			if got != av {
+				return false
+			}
+			continue
+		}
+		for _, m := range []map[string]string{bind, nb} {
+			for _, v := range m {
+				if v == av {
+					return false // two metavariables never name the same local
+				}
+			}
+		}
+		nb[pv] = av
+	}
+	if pattern[pp:] != actual[ap:] {
+		return false
+	}
+	for k, v := range nb {
+		bind[k] = v
+	}
+	return true
 }
 
 // ---------------------------------------------------------------------------------
